@@ -117,6 +117,11 @@ func genC10(seed uint64, tier string) *plan.Plan {
 	r := rand.New(rand.NewPCG(seed, 0xc10))
 	pl := &plan.Plan{Cfg: map[string]int64{}}
 	ttl := []int64{1, 5, 60, 1800}[r.IntN(4)]
+	if r.IntN(8) == 0 {
+		// lifetimes of weeks, months, or the largest value the field holds
+		ttl = []int64{4294967, 4294968, 5184000, 31536000}[r.IntN(4)]
+		pl.Cfg["idle_ns"] = int64(20 * 365 * 24 * time.Hour) // advances of that order are not a stuck run
+	}
 	pl.Cfg["ttl"] = ttl
 	pl.Cfg["member"] = int64(r.IntN(3) / 2) // 2/3 simclock, 1/3 realclock
 	pl.Cfg["mode"] = int64(r.IntN(3))
